@@ -342,7 +342,7 @@ fn e2e(max: u16, ops: Vec<SOp>, server_close: Vec<bool>, res: &mut CaseResult) {
 pub fn run(rc: &mut RunCtx) {
     let seed = rc.seed;
     // (1) exhaustive small sequences
-    let len = if rc.quick() { 5 } else { 6 };
+    let len = if rc.miri() { 3 } else if rc.quick() { 5 } else { 6 };
     for max in [1u16, 2, 3] {
         let id = format!("exh:max={}:len<={}", max, len);
         if !rc.mine(&id) {
@@ -398,6 +398,9 @@ pub fn run(rc: &mut RunCtx) {
     rc.note("exhaustive_over", json!(format!("all op sequences of length <= {} for channel_max in 1..=3", len)));
     // (2) boundary runs with max = 65535 (and neighbours): fill, free, refill
     for (name, max) in [("max65535", 65535u16), ("max65534", 65534), ("max255", 255)] {
+        if rc.miri() && max != 255 {
+            continue;
+        }
         for variant in 0..4 {
             let id = format!("boundary:{}:{}", name, variant);
             if !rc.mine(&id) {
@@ -457,7 +460,7 @@ pub fn run(rc: &mut RunCtx) {
         }
     }
     // (3) random sequences
-    let n = rc.n(1500, 60000);
+    let n = if rc.miri() { 30 } else { rc.n(1500, 60000) };
     for i in 0..n {
         let id = format!("rand:{}", i);
         if !rc.mine(&id) {
@@ -471,8 +474,8 @@ pub fn run(rc: &mut RunCtx) {
             1 => 2,
             2 => r.range(3, 8) as u16,
             3 => r.range(9, 40) as u16,
-            4 => 65535,
-            _ => r.range(1, 300) as u16,
+            4 if !rc.miri() => 65535,
+            _ => r.range(1, if rc.miri() { 12 } else { 300 }) as u16,
         };
         let len = r.usize(1, 4 * (max as usize).min(60) + 8);
         let ops = rand_seq(&mut r, max, len);
@@ -484,7 +487,7 @@ pub fn run(rc: &mut RunCtx) {
         rc.end(res);
     }
     // (4) end to end
-    let n = rc.n(60, 1500);
+    let n = if rc.miri() { 0 } else { rc.n(60, 1500) };
     for i in 0..n {
         let id = format!("e2e:{}", i);
         if !rc.mine(&id) {
@@ -512,7 +515,7 @@ pub fn run(rc: &mut RunCtx) {
         rc.end(res);
     }
     // (5) end to end, full 65535-channel run (thorough only)
-    if !rc.quick() {
+    if !rc.quick() && !rc.miri() {
         let id = "e2e:full65535".to_string();
         if rc.mine(&id) {
             rc.begin_with_timeout(&id, Duration::from_secs(900));
